@@ -15,14 +15,16 @@ type VerifMuxConfig struct {
 	Username           string
 	Password           string
 	Health             HealthConfig
+	EnableGUI          bool   // serve the static files under AppLoc at "/" (C28 only; C27 keeps the GUI off)
+	AppLoc             string
 }
 
-// VerifNewServerMux builds the REAL server mux (newServerMux) for a configuration; the GUI is always disabled.
+// VerifNewServerMux builds the REAL server mux (newServerMux) for a configuration.
 func VerifNewServerMux(c VerifMuxConfig, gateway Gatewayer) *http.ServeMux {
 	return newServerMux(muxConfig{
 		host:               c.Host,
-		appLoc:             "",
-		enableGUI:          false,
+		appLoc:             c.AppLoc,
+		enableGUI:          c.EnableGUI,
 		disableCSRF:        c.DisableCSRF,
 		disableHeaderCheck: c.DisableHeaderCheck,
 		disableCSP:         c.DisableCSP,
